@@ -9,4 +9,4 @@ CONSTANTS
   Emit = TRUE
 INIT InitGraphs
 NEXT NextGraphs
-INVARIANTS TheoremsHold EmitInv
+INVARIANTS TheoremsHold TheoremsHoldAllClosures EmitInv
